@@ -16,8 +16,9 @@ Allowed == IF "KNOWN" \in DOMAIN IOEnv THEN JsonDeserialize(IOEnv.KNOWN) ELSE <<
 
 VARIABLES l,     \* next trace line
           m,     \* MAC state (Mac.tla)
-          fe     \* front-end state
-vars == <<l, m, fe>>
+          fe,    \* front-end state
+          ck     \* checkpoints <<m, fe>> of the current history (forked continuations, C09)
+vars == <<l, m, fe, ck>>
 
 Chk(name, exp, obs) ==
     IF exp = obs THEN TRUE
@@ -554,11 +555,17 @@ Match(e) ==
       [] e.ev = "nb" -> EvNb(e)
       [] e.ev = "a_proc" -> EvAProc(e)
       [] e.ev = "a_rxc" -> EvARxc(e)
+      [] e.ev = "checkpoint" -> UNCHANGED <<m, fe>>
+      \* a forked continuation: the harness re-created the device, re-executed the history prefix silently
+      \* and now continues from that point with a different RNG draw
+      [] e.ev = "restore" -> m' = ck[e.id][1] /\ fe' = ck[e.id][2] /\ SnapOk(m', e)
       [] OTHER -> Chk("unknown event", "", e.ev) /\ UNCHANGED <<m, fe>>
 
-Init == l = 1 /\ m = InitMac("EU868", 14, 0)
+Init == l = 1 /\ ck = <<>> /\ m = InitMac("EU868", 14, 0)
         /\ fe = IdleFe([front |-> "nb", classc |-> 0, lead |-> 0, buffer |-> 0, offset |-> 0, duration |-> 0])
-Next == l <= Len(Rec) /\ Match(Rec[l]) /\ l' = l + 1
+Next == /\ l <= Len(Rec) /\ Match(Rec[l]) /\ l' = l + 1
+        /\ ck' = IF Rec[l].ev = "reset" THEN <<>>
+                 ELSE IF Rec[l].ev = "checkpoint" THEN Append(ck, <<m, fe>>) ELSE ck
 Spec == Init /\ [][Next]_vars
 
 TraceAccepted ==
